@@ -589,6 +589,10 @@ func (w *Whisper) propagate(archiveID int, ts []Timestamp, now Timestamp) (propa
 			return nil, err
 		}
 		values := filterValidValues(points, fromInterval, rHigh)
+		if len(values) == 0 {
+			// nothing known: never aggregate an empty set
+			continue
+		}
 		knownFactor := float32(len(values)) / float32(len(points))
 		if knownFactor < w.XFilesFactor() {
 			continue
